@@ -39,29 +39,21 @@ impl SearchOptions {
     #[verifier::external_body]
     pub fn new() -> (r: SearchOptions) ensures r.deref is Never, r.typesonly == false, r.timelimit == 0, r.sizelimit == 0 { unimplemented!() }
 //@lift name=SearchOptions::deref file=src/search.rs impl="impl\s+SearchOptions\s*\{" fn=deref
-//@ sub "fn deref(mut self, d: DerefAliases) -> Self" => "fn deref(self, d: DerefAliases) -> Self"
-//@ sub "self.deref = d;\n        self" => "let mut verif_self = self; verif_self.deref = d;\n        verif_self"
 //@ ret r
 //@ spec
     ensures r.deref == d && r.typesonly == self.typesonly && r.timelimit == self.timelimit && r.sizelimit == self.sizelimit, //# C02.search_option_deref_sets_exactly_that_field
 //@end
 //@lift name=SearchOptions::typesonly file=src/search.rs impl="impl\s+SearchOptions\s*\{" fn=typesonly
-//@ sub "fn typesonly(mut self, typesonly: bool) -> Self" => "fn typesonly(self, typesonly: bool) -> Self"
-//@ sub "self.typesonly = typesonly;\n        self" => "let mut verif_self = self; verif_self.typesonly = typesonly;\n        verif_self"
 //@ ret r
 //@ spec
     ensures r.typesonly == typesonly && r.deref == self.deref && r.timelimit == self.timelimit && r.sizelimit == self.sizelimit, //# C02.search_option_typesonly_sets_exactly_that_field
 //@end
 //@lift name=SearchOptions::timelimit file=src/search.rs impl="impl\s+SearchOptions\s*\{" fn=timelimit
-//@ sub "fn timelimit(mut self, timelimit: i32) -> Self" => "fn timelimit(self, timelimit: i32) -> Self"
-//@ sub "self.timelimit = timelimit;\n        self" => "let mut verif_self = self; verif_self.timelimit = timelimit;\n        verif_self"
 //@ ret r
 //@ spec
     ensures r.timelimit == timelimit && r.deref == self.deref && r.typesonly == self.typesonly && r.sizelimit == self.sizelimit, //# C02.search_option_timelimit_sets_exactly_that_field
 //@end
 //@lift name=SearchOptions::sizelimit file=src/search.rs impl="impl\s+SearchOptions\s*\{" fn=sizelimit
-//@ sub "fn sizelimit(mut self, sizelimit: i32) -> Self" => "fn sizelimit(self, sizelimit: i32) -> Self"
-//@ sub "self.sizelimit = sizelimit;\n        self" => "let mut verif_self = self; verif_self.sizelimit = sizelimit;\n        verif_self"
 //@ ret r
 //@ spec
     ensures r.sizelimit == sizelimit && r.deref == self.deref && r.typesonly == self.typesonly && r.timelimit == self.timelimit, //# C02.search_option_sizelimit_sets_exactly_that_field
